@@ -189,3 +189,78 @@ def array_struct_program(rng):
         calls.append({'op': 'afromarray', 'rid': 'f', 'sa': [name, tc, rng.choice(['ctor', 'extend'])], 'ia': [bits], 'va': tvals})
         calls.append({'op': 'atolist', 't': 'f'})
     return {'calls': calls}
+
+
+MINI_W = {'e4m3mxfp': 8, 'e5m2mxfp': 8, 'e3m2mxfp': 6, 'e2m3mxfp': 6, 'e2m1mxfp': 4, 'p4binary': 8, 'p3binary': 8, 'mxint': 8}
+
+
+def scaled_array_program(rng):
+    """Arrays over scaled dtypes (power-of-two scales), interleaved with unscaled Arrays of the same dtype name and
+    length that are given the same values: every Array must encode with its own scale and range-check on its own."""
+    calls = []
+    for _ in range(rng.randint(2, 4)):
+        name = rng.choice(['uint', 'int', 'uint', 'int', 'float', 'e4m3mxfp', 'e5m2mxfp', 'e3m2mxfp', 'e2m1mxfp', 'mxint', 'bfloat'])
+        if name in ('uint', 'int'):
+            n = rng.choice([8, 8, 12, 16])
+            k = rng.choice([1, 2, 3, 4])
+            lim = (1 << n) if name == 'uint' else (1 << (n - 1))
+            vals = []
+            for _ in range(rng.randint(1, 4)):
+                v = rng.choice([rng.randrange(lim), lim - 1, lim >> 1, rng.randrange(lim)]) << k     # fits with the scale only
+                if rng.random() < 0.4:
+                    v = rng.randrange(lim)
+                    v -= v % (1 << k)                                                                # fits either way
+                if name == 'int' and rng.random() < 0.5:
+                    v = -v
+                vals.append(v)
+            items = [enc_int(v) for v in vals]
+        else:
+            n = MINI_W.get(name, 16 if name == 'bfloat' else rng.choice([16, 32, 64]))
+            k = rng.choice([-6, -2, -1, 1, 2, 5, 9])
+            items = [enc_float(rng.choice([0.0, -0.0, 1.0, -1.5, 3.0, 0.375, 448.0, 500.0, 6.0, 7.5, 28.0, 57344.0, 1e5,
+                                           -1e5, float('inf'), rng.uniform(-300, 300), rng.uniform(-2, 2)]))
+                     for _ in range(rng.randint(1, 4))]
+        how = rng.choice(['list', 'append', 'extend', 'setitem'])
+        calls.append({'op': 'ascaled', 'sa': [name, how], 'ia': [n, k], 'va': items, 'drop': ['r*']})
+        # the same values in an Array of the same dtype without a scale / with another scale
+        for it in items[:2]:
+            r = rng.random()
+            if r < 0.5:
+                calls.append({'op': 'anew', 'rid': 'u', 'sa': [name, 'list'], 'ia': [n, 0], 'va': [it], 'drop': ['*']})
+            elif r < 0.8:
+                calls.append({'op': 'anew', 'rid': 'u', 'sa': [name, 'list'], 'ia': [n, 0], 'va': [enc_int(0) if name in ('uint', 'int') else enc_float(0.0)], 'drop': ['*']})
+                calls.append({'op': rng.choice(['aappend', 'asetitem', 'ainsert']), 't': 'u', 'ia': [0], 'va': [it]})
+                calls.append({'op': 'atolist', 't': 'u'})
+            else:
+                calls.append({'op': 'ascaled', 'sa': [name, how], 'ia': [n, k + 1], 'va': [it], 'drop': ['r*']})
+    return {'calls': calls}
+
+
+def array_memo_program(rng):
+    """One Array encoding equal-comparing values that need different codes: 0.0 and -0.0 in either order, and the same
+    out-of-range value before and after options.mxfp_overflow changes (any per-Array or per-dtype memo must key on both)."""
+    name = rng.choice(['e4m3mxfp', 'e5m2mxfp', 'e3m2mxfp', 'e2m3mxfp', 'e2m1mxfp', 'bfloat', 'float', 'p3binary', 'p4binary', 'mxint'])
+    n = MINI_W.get(name, 16)
+    z = [0.0, -0.0] if rng.random() < 0.5 else [-0.0, 0.0]
+    extra = [rng.choice([1.0, -1.0, 0.5, 2.0])]
+    vals = z + extra + [z[0], z[1]]
+    rng.shuffle(extra)
+    calls = [{'op': 'anew', 'rid': 'a', 'sa': [name, rng.choice(['list', 'extend', 'iter'])], 'ia': [n, 0], 'va': [enc_float(v) for v in vals]},
+             {'op': 'adata', 't': 'a'}, {'op': 'atolist', 't': 'a'}]
+    big = rng.choice([1e6, -1e6, 500.0, -460.0, 60000.0, float('inf'), float('-inf'), 7.0, 30.0])
+    calls.append({'op': 'anew', 'rid': 'b', 'sa': [name, 'list'], 'ia': [n, 0], 'va': []})
+    mx = 0
+    for _ in range(rng.randint(3, 5)):
+        how = rng.choice(['aappend', 'ainsert', 'aextend'])
+        if how == 'aappend':
+            calls.append({'op': 'aappend', 't': 'b', 'va': [enc_float(big)]})
+        elif how == 'ainsert':
+            calls.append({'op': 'ainsert', 't': 'b', 'ia': [0], 'va': [enc_float(big)]})
+        else:
+            calls.append({'op': 'aextend', 't': 'b', 'va': [enc_float(big), enc_float(-big)]})
+        if rng.random() < 0.7:
+            mx = 1 - mx
+            calls.append(_d.setopt('mx', mx))
+    calls.append({'op': 'adata', 't': 'b'})
+    calls.append({'op': 'atolist', 't': 'b'})
+    return {'calls': calls}
